@@ -13,6 +13,7 @@ STRUCT = {
     "ab_grid2": ("AB_rev", ("grid", 2, 1, 1, 0)), "ab_grid2p": ("AB_rev", ("grid", 2, 1, 1, 1)), "abc_pair": ("ABC_bi", ("graph", "pair")), "dimer1": ("dimer_source", ("grid", 1, 1, 1, 0)),
     "none1": ("none", ("grid", 1, 1, 1, 0)), "o3_grid3": ("order3_repeat", ("grid", 3, 1, 1, 1)), "ab_tri": ("AB_rev", ("graph", "triangle")), "abc1": ("ABC_bi", ("grid", 1, 1, 1, 0)),
     "chb_grid2": ("chstt_B", ("grid", 2, 1, 1, 0)), "ab_grid12": ("AB_rev", ("grid", 1, 2, 1, 2)),
+    "ab_grid321": ("AB_rev", ("grid", 3, 2, 1, 1)), "ab_grid232": ("AB_rev", ("grid", 2, 3, 2, 0)), "abc_tri": ("ABC_bi", ("graph", "triangle")),
 }
 
 
@@ -217,4 +218,39 @@ def dxdtf_units_ok(name, us, xs):
                 return False
         elif not _close(got[s] * r_u, want, _scale(xs) * r_def):
             return False
+    return True
+
+
+def flag_position_ok(name, k, extra):
+    """chemostat map with entry k flagged (plus, when `extra`, every third other entry): the derivative of the WHOLE state with flags
+    applied is the derivative without flags, set to zero at exactly the flagged entries (the derivative is a function of the
+    state alone: flagged entries keep acting as reactants and partners) - per entry (compute_dspeciesdt, cell given by index and
+    by coordinates) and for the state vector (compute_dstatedt); spaces with two or three extended axes, so that a flag looked up
+    at a transposed position is another entry's flag"""
+    net, sd = STRUCT[name]
+    base = system(name)
+    ns, nc = len(base.network.species), base.space.size()
+    n = ns * nc
+    if k >= n:
+        return True
+    chem = [1 if (j == k or (extra and j % 3 == (k + 1) % 3)) else 0 for j in range(n)]
+    sysm = system(name, chem)
+    x = [3.0 + 1.75 * ((7 * j + 3) % 11) for j in range(n)]
+    st = UnitArray(x, sysm.state.units)
+    free = system(name, [0] * n)
+    d0 = kinetics.compute_dstatedt(free, state=st)
+    d1 = kinetics.compute_dstatedt(sysm, state=st)
+    d2 = kinetics.compute_dstatedt(sysm, state=st, apply_chemostats=False) if "apply_chemostats" in kinetics.compute_dstatedt.__code__.co_varnames else d0
+    for j in range(n):
+        want = 0.0 if chem[j] else float(d0.value[j])
+        if abs(float(d1.value[j]) - want) > 1e-9 * (1 + abs(want)) or abs(float(d2.value[j]) - float(d0.value[j])) > 1e-9 * (1 + abs(want)):
+            return False
+        s_, i_ = divmod(j, nc)
+        forms = [i_]
+        if hasattr(sysm.space, "get_cell_coordinates"):
+            forms.append(sysm.space.get_cell_coordinates(i_))
+        for pos in forms:
+            r = kinetics.compute_dspeciesdt(sysm, s_, pos, state=st, apply_chemostats=True)
+            if abs(float(r.value) - want) > 1e-9 * (1 + abs(want)):
+                return False
     return True
